@@ -1,9 +1,10 @@
 (* Correspondence check for C27: one case = one bucket tree, one ListObjects
    parameter set and one continuation style; the harness runs the FULL pagination
    loop against the real S3 gateway router (real filer gRPC service over leveldb2)
-   and reports every page. *)
+   and reports every page and the bucket tree it reads back after the last request
+   (the bucket is NOT restored between pages: a delimiter listing deletes folders). *)
 From Coq Require Import List NArith ZArith Bool String.
-From SW Require Export base.Verdict model.S3List.
+From SW Require Export base.Verdict model.S3List model.S3ListMut.
 Import ListNotations.
 Local Open Scope string_scope.
 Local Open Scope list_scope.
@@ -28,6 +29,11 @@ Definition sz : string := "z".
 Definition szz : string := "zz".
 Definition sup : string := ".uploads".
 Definition spart : string := "0001.part".
+Definition sdm : string := "d-x".
+Definition sdp : string := "d.x".
+Definition sdb : string := "d!".
+Definition sg : string := "g".
+Definition sh : string := "h".
 
 Record case := {
   c_ae : bool;               (* -allowEmptyFolder *)
@@ -38,7 +44,8 @@ Record case := {
   c_style : style;
   c_start : string;          (* marker / start-after / token of the FIRST request *)
   c_cap : nat;               (* the client gives up after this many pages *)
-  c_pages : list page        (* what the implementation answered *)
+  c_pages : list page;       (* what the implementation answered *)
+  c_final : list tree        (* the bucket after the last request (a LIST deletes folders) *)
 }.
 
 Fixpoint list_eqb (l1 l2 : list string) : bool :=
@@ -59,35 +66,33 @@ Fixpoint pages_eqb (l1 l2 : list page) : bool :=
   | _, _ => false
   end.
 
-Definition model_pages (c : case) : list page :=
-  paginate (c_cap c) (c_ae c) (c_tree c) (c_prefix c) (c_maxkeys c) (c_delim c) (c_style c) (c_start c).
+(* the model of the whole pagination loop: every request runs on the tree the previous
+   one left behind (S3ListMut.run_m) *)
+Definition model_run (c : case) : list (string * page) * list tree :=
+  run_m (c_cap c) (c_ae c) (c_tree c) (c_prefix c) (c_maxkeys c) (c_delim c) (c_style c) (c_start c).
 
-Definition model_markers (c : case) : list string :=
-  markers (c_cap c) (c_ae c) (c_tree c) (c_prefix c) (c_maxkeys c) (c_delim c) (c_style c) (c_start c).
+Definition model_pages (c : case) : list page := map snd (fst (model_run c)).
+Definition model_markers (c : case) : list string := map fst (fst (model_run c)).
+Definition model_final (c : case) : list tree := snd (model_run c).
 
-(* which known finding the input falls under (the markers the client will send are a
-   function of the input: they are computed by the model) *)
+(* which known finding the input falls under (the markers the client will send and the
+   predicted final tree are functions of the input: they are computed by the model) *)
 Definition trigger (c : case) : option N :=
-  let ms := model_markers c in
-  let full_key_marker_used :=
-      negb (c_start c =? "") || (full_key_style (c_style c) && Nat.leb 2 (List.length ms)) in
-  if existsb deep_marker ms then Some 3%N
-  else if full_key_marker_used && prefix_has_dir (c_prefix c) then Some 0%N
-  else if existsb (marker_into_subdir (c_prefix c) (c_delim c)) ms then Some 2%N
-  else if bad_prefix (c_prefix c) then Some 4%N
-  else if start_is_dir (c_tree c) (c_start c) then Some 5%N
-  else if trig_zero_yield (c_tree c) then Some 1%N
-  else None.
+  trigger_of (c_ae c) (c_tree c) (c_prefix c) (c_delim c) (c_style c) (c_start c)
+             (model_markers c) (model_final c).
 
 Definition check (c : case) : outcome :=
-  {| o_corr := wf (c_tree c) && pages_eqb (model_pages c) (c_pages c);
-     (* the property's oracle on the implementation's pages: every page sound with
-        respect to the S3 reading of the key set, and the pages together enumerate
-        every matching key / common prefix exactly once and end "not truncated" *)
+  {| o_corr := wf (c_tree c) && pages_eqb (model_pages c) (c_pages c) &&
+               forest_eqb (model_final c) (c_final c);
+     (* the property's oracle on the implementation's observables: every page sound with
+        respect to the S3 reading of the key set, the pages together enumerate every
+        matching key / common prefix exactly once and end "not truncated", and listing
+        did not remove any object (the key set of the bucket afterwards is the same) *)
      o_prop := (let sk := spec_keys (c_tree c) (c_prefix c) (c_delim c) (c_start c) in
                 let sc := spec_cps (c_ae c) (c_tree c) (c_prefix c) (c_delim c) (c_start c) in
                 forallb (page_sound_with sk sc (c_maxkeys c)) (c_pages c) &&
-                enumerates_with sk sc (c_pages c));
+                enumerates_with sk sc (c_pages c) &&
+                lists_equal_keys (c_tree c) (c_final c));
      o_trig := trigger c;
      o_nontrivial := existsb (fun p => negb (Nat.eqb (List.length (pg_keys p)) 0)) (c_pages c) |}.
 
